@@ -874,6 +874,21 @@ func (r *PipelineRunner) Shutdown(ctx context.Context) error {
 	return nil
 }
 
+// removeFromWaitList removes a job from the wait list of its pipeline and keeps the order of the remaining jobs
+func (r *PipelineRunner) removeFromWaitList(job *PipelineJob) {
+	waitList, ok := r.waitListByPipeline[job.Pipeline]
+	if !ok {
+		return
+	}
+	remaining := make([]*PipelineJob, 0, len(waitList))
+	for _, queuedJob := range waitList {
+		if queuedJob != job {
+			remaining = append(remaining, queuedJob)
+		}
+	}
+	r.waitListByPipeline[job.Pipeline] = remaining
+}
+
 // taken from https://stackoverflow.com/a/37335777
 func removeJobFromList(jobs []*PipelineJob, jobToRemove *PipelineJob) []*PipelineJob {
 	for index, job := range jobs {
@@ -950,11 +965,22 @@ func (r *PipelineRunner) cancelJobInternal(id uuid.UUID) error {
 	if job.Start == nil {
 		job.markAsCanceled()
 
+		// A canceled job must not keep its place on the wait list: it would occupy a queue slot and
+		// (with a pending start delay) block all jobs queued behind it
+		if job.startTimer != nil {
+			job.startTimer.Stop()
+			job.startTimer = nil
+		}
+		r.removeFromWaitList(job)
+
 		log.
 			WithField("component", "runner").
 			WithField("pipeline", job.Pipeline).
 			WithField("jobID", job.ID).
 			Debugf("Marked job as canceled, since it was not started")
+
+		// The head of the wait list might have changed, so another job could be ready to start
+		r.startJobsOnWaitList(job.Pipeline)
 
 		r.requestPersist()
 
